@@ -297,7 +297,8 @@ def build_nested(doc: dict) -> tuple[dict, dict, dict, dict]:
         moved = any(x in nd.get("_ibind", {}) for nd in top_nodes if nd["kind"] == "graph")
         # (rely_on_surfaced: a name bound inside the nested graph and ALSO consumed by an outer function node is bound nowhere else -
         #  the outer consumer takes the value the nested graph surfaces, as it takes the flat graph's binding)
-        if (used_outer and not doc.get("rely_on_surfaced")) or not moved or x in conflict:
+        #  (not with an inner select: a binding of a name the narrowed inner graph no longer takes as input is private to it - repair 44)
+        if (used_outer and not (doc.get("rely_on_surfaced") and not doc.get("inner_select"))) or not moved or x in conflict:
             outer_bind[x] = v
         elif used_outer:
             info["outer_consumer_of_surfaced_binding"] = info.get("outer_consumer_of_surfaced_binding", 0) + 1
